@@ -85,7 +85,7 @@ func ReadAmmoConfig(fs afero.Fs, fileName string) (ammoCfg *AmmoConfig, err erro
 			return
 		}
 		ammoCfg, err = ConvertHCLToAmmo(ammoHcl)
-	case strings.HasSuffix(lowerName, ".yaml") || strings.HasPrefix(lowerName, ".yml"):
+	case strings.HasSuffix(lowerName, ".yaml") || strings.HasSuffix(lowerName, ".yml"):
 		ammoCfg, err = ParseAmmoConfig(file)
 	default:
 		err = fmt.Errorf("%s file extension should be .yaml or .yml", op)
